@@ -1,4 +1,157 @@
-/- Driver for C12 (stub: not built yet). -/
+/-
+Driver for C12.  Line formats (tokens after the property id):
+
+  run <core> <mode> <op> ...            forecaster history, exactly as C03 (values / labels / states)
+  seq <estimator> F:<container>:<ikind> A:<id>:<method>:<container>:<chg>:<digest> ... | <inst>:<id> ...
+        an opaque fitted estimator as the transformer machine whose `app` is the table of RECORDED
+        first results (`A:` entries: argument id, method, container of the argument, whether the
+        first result's values differ from the argument's values, digest of the first result);
+        the calls (`inst` = which copy: o original, jN/j1/j2/j4 = equal-parameter twins fitted with
+        that n_jobs, pk = pickled and restored copy) are run through `P12.trun`; predicted per call:
+        `<args flag>:<digest>` with the args flag from `P12.effectOf` / `P12.callerAfter`.
+  hampel <w> <nsigma> <k> <retbool> <series>    HampelFilter.transform on a Series: result AND caller's series
+  par <order> <tasks>                   Parallel map of x ↦ 3x+1 under the completion order `order`
+-/
+import SkVerif.Model.C12Parallel
+import SkVerif.Model.C12Pure
+import SkVerif.Drv.C03
 namespace SkVerif.Drv.C12
-def handle (_toks : List String) : String := "bad-op"
+open SkVerif SkVerif.Fc SkVerif.P12 SkVerif.Drv
+
+-- ------------------------------------------------------------------------------------ seq
+
+structure ArgEntry where
+  id : String
+  method : String
+  container : String
+  chg : Bool
+  digest : String
+
+def parseEntry? (t : String) : Option ArgEntry :=
+  match t.splitOn ":" with
+  | ["A", id, m, c, chg, d] => (parseBool? chg).map (fun b => ⟨id, m, c, b, d⟩)
+  | _ => none
+
+def methodOf? (m : String) : Option Method :=
+  if m == "transform" then some .transform
+  else if m == "inverse_transform" then some .inverse
+  else if m == "predict" then some .predict
+  else if m == "predict_proba" then some .predictProba
+  else none
+
+/-- the table machine: fitted state = the table; `app` looks the (method, argument) up -/
+def tableCore : TCore Unit (List ArgEntry) (List ArgEntry) String String where
+  fit _ tbl := .ok tbl
+  app tbl m a :=
+    match tbl.find? (fun e => e.id == a && methodOf? e.method == some m) with
+    | some e => .ok e.digest
+    | none => .error .other
+
+def flagOf (estimator : String) (e : ArgEntry) : String :=
+  let arg : ArgSnap Bool := ⟨false, [], true⟩
+  -- values abstracted to "differs from the argument": the argument is `false`, the result `e.chg`
+  let after := callerAfter (effectOf estimator e.method e.container) arg e.chg
+  if after.values != arg.values then "F:values"
+  else if after.rangeIndex != arg.rangeIndex then "F:itype" else "T"
+
+def fitFlag (estimator container ikind : String) : String :=
+  let arg : ArgSnap Bool := ⟨false, [], ikind == "range"⟩
+  let after := callerAfter (effectOf estimator "fit" container) arg true
+  -- `fit` returns self, never a value: only the index effect can apply
+  if after.rangeIndex != arg.rangeIndex then "F:itype" else "T"
+
+abbrev Call := String × ArgEntry × Method
+
+def parseCall? (tbl : List ArgEntry) (c : String) : Option Call :=
+  match c.splitOn ":" with
+  | [inst, id] =>
+    match tbl.find? (fun (e : ArgEntry) => e.id == id) with
+    | some e => (methodOf? e.method).map (fun m => (inst, e, m))
+    | none => none
+  | _ => none
+
+def showCall (est : String) (c : Call) (o : TOut String) : String :=
+  let r : String := match o with
+    | TOut.res d => d
+    | TOut.err _ => "E:model"
+    | TOut.done => "E:model"
+  s!"{c.1}:{c.2.1.id}={flagOf est c.2.1}:{r}"
+
+def runSeq (est container ikind : String) (tbl : List ArgEntry) (calls : List Call) : String :=
+  -- every copy (original, equal-parameter twins, unpickled copy) is `fit params data`
+  let st0 : TState Unit (List ArgEntry) := ⟨(), none⟩
+  let fitted : TState Unit (List ArgEntry) := (tstep tableCore st0 (TOp.fit tbl)).1
+  let ops : List (TOp (List ArgEntry) String) := calls.map (fun (c : Call) => TOp.call c.2.2 c.2.1.id)
+  let outs : List (TOut String) := (trun tableCore fitted ops).2
+  let shown : List String := (calls.zip outs).map (fun (p : Call × TOut String) => showCall est p.1 p.2)
+  s!"fit={fitFlag est container ikind} " ++ " ".intercalate shown
+
+def handleSeq (toks : List String) : String :=
+  match toks with
+  | est :: f :: rest =>
+    let entriesToks : List String := rest.takeWhile (· != "|")
+    let callToks : List String := (rest.dropWhile (· != "|")).drop 1
+    match f.splitOn ":" with
+    | ["F", container, ikind] =>
+      match entriesToks.mapM parseEntry? with
+      | none => "bad-op"
+      | some tbl =>
+        match callToks.mapM (parseCall? tbl) with
+        | none => "bad-op"
+        | some calls => runSeq est container ikind tbl calls
+    | _ => "bad-op"
+  | _ => "bad-op"
+
+-- ------------------------------------------------------------------------------------ hampel
+
+def parseSeries? (s : String) : Option ST.Series :=
+  if s == "-" then some []
+  else (s.splitOn ",").mapM (fun t =>
+    match t.splitOn ":" with
+    | [l, v] => do pure ((← parseInt? l), (← parseORat? v))
+    | _ => none)
+
+def showSeries (z : ST.Series) : String :=
+  if z.isEmpty then "-" else ",".intercalate (z.map (fun o => s!"{o.1}:{showORat o.2}"))
+
+def showErr : ST.Err → String
+  | .value => "E:value" | .type => "E:type" | .notimpl => "E:notimpl" | .notfitted => "E:notfitted"
+  | .attr => "E:attr" | .key => "E:key" | .other => "E:other" | .nodata => "E:nodata"
+
+def handleHampel (toks : List String) : String :=
+  match toks with
+  | [w, ns, k, rb, z] =>
+    match parseNat? w, parseRat? ns, parseRat? k, parseBool? rb, parseSeries? z with
+    | some w, some ns, some k, some rb, some z =>
+      match hampelInPlace ⟨w, ns, k⟩ z with
+      | .error e => s!"res={showErr e}"
+      | .ok (r, after) =>
+        let res := if rb then
+            (if r.isEmpty then "-" else ",".intercalate (r.map (fun o => s!"{o.1}:{if o.2.isNone then "T" else "F"}")))
+          else showSeries r
+        s!"res={res} after={showSeries after}"
+    | _, _, _, _, _ => "bad-op"
+  | _ => "bad-op"
+
+-- ------------------------------------------------------------------------------------ par
+
+def handlePar (toks : List String) : String :=
+  match toks with
+  | [order, tasks] =>
+    match parseNatList? order, parseIntList? tasks with
+    | some o, some t =>
+      match Par.parallelMap (fun (x : Int) => 3 * x + 1) t o with
+      | some r => s!"res={showIntList r}"
+      | none => "res=incomplete"
+    | _, _ => "bad-op"
+  | _ => "bad-op"
+
+def handle (toks : List String) : String :=
+  match toks with
+  | "run" :: rest => SkVerif.Drv.C03.handle ("run" :: rest)
+  | "seq" :: rest => handleSeq rest
+  | "hampel" :: rest => handleHampel rest
+  | "par" :: rest => handlePar rest
+  | _ => "bad-op"
+
 end SkVerif.Drv.C12
